@@ -140,6 +140,26 @@ DESC = {
               "a pool size that does not divide the domain and a circuit that fills its domain to within n mod workers rows"),
     "C19-5": ("batch_inversion gains a parallel path over par_chunks_exact_mut(256) for >= 1024 entries: the remainder is not inverted",
               "a slice of >= 1024 entries whose length is no multiple of 256 (through the API: >= 1023 non-zero public inputs)"),
+    "C01-7": ("Verifier::try_from_bytes gains a header check that compares the public-input section length in bytes (count x 8) with the constraint count",
+              "a verifier restored from its own bytes whose circuit has public inputs on more than one eighth of its rows"),
+    "C04-6": ("per-Verifier memo of accepted (proof, public inputs) digests shared by the V2 and V3 arms: a hit skips the transcript seeding that separates the versions",
+              "the same Verifier object first accepts a message under its own version and is then asked about the same message under the other one"),
+    "C04-7": ("public inputs absorbed 64 at a time through chunks_exact(64) on prover and verifier alike: the last len % 64 entries of a vector of >= 64 stay out of the transcript",
+              "a vector of >= 64 public inputs with len % 64 >= 2 (two tail entries re-balanced for the replayed z), or an independent transcript"),
+    "C05-6": ("Composer::prove gains a fail-fast arithmetic check that uses the selectors the instance carries instead of the compiled ones",
+              "an instance whose wire values satisfy the compiled rows but which carries another constant or scaling selector on one row"),
+    "C16-7": ("Verifier::try_from_bytes rebuilds the inverse public-input roots in one walk over the domain with a wrong shortcut for rows more than 64 apart",
+              "a decoded verifier, two consecutive public-input rows more than 64 rows apart, a non-zero public input at or after the gap"),
+    "C16-8": ("proof evaluations decoded by a variable-time limb comparison that falls through when all limbs equal the modulus: r is accepted as a second encoding of zero",
+              "a proof string with an evaluation slot holding exactly the field modulus"),
+    "C17-6": ("compressed decoder validates selector indices against 3 + 360 table entries while the deduplicated table has 347, and indexes the table directly",
+              "hades_optimization = true and a referenced selector index in the 16-wide window just beyond the table"),
+    "C17-7": ("identity rule of the raw commit-key points moved onto the decoded point (G1Affine equality is vacuous when both infinity flags are set); flagged points skip the curve and subgroup checks",
+              "a raw commit-key point with flag byte 1 over arbitrary reduced coordinates"),
+    "C18-7": ("the Prover owns the dense public-input vector in an Arc<Mutex<Vec>>: filled at the top of prove, read again in round 3, lock not held in between",
+              "two threads proving instances with different public inputs on the same Prover (or clones of it), the second fill landing between the first fill and its interpolation"),
+    "C18-8": ("wire-value vectors recycled between proofs through a thread_local and prepared with resize(): stale values survive in the padding rows",
+              "an earlier prove on the same thread with more live rows than the current circuit has constraints (std build only)"),
 }
 
 
